@@ -669,7 +669,12 @@ class CausalInference(object):
                     evidence={**do, **adj_evidence},
                     show_progress=False,
                 ).reduce(other_evidence, inplace=False)
-                * p_z.get_value(**adj_evidence)
+                * p_z.values[
+                    tuple(
+                        p_z.get_state_no(var, adj_evidence[var])
+                        for var in p_z.variables
+                    )
+                ]
             )
 
             if show_progress and config.SHOW_PROGRESS:
